@@ -131,19 +131,21 @@ Definition apply_op (st : state * txn) (o : wop) : state * txn :=
                s.(ckpt) s.(epoch) s.(wal) (if memN n s.(vecs) then s.(vecs) else n :: s.(vecs)), t)
   end.
 
-(* the records of one commit, in the order commit() appends them *)
+(* the records of one commit, in the order commit() appends them.  The memtable lists are built by
+   consing, so `rev` gives call order: replaying the records rebuilds the same lists (the code logs
+   edges sorted and property maps in hash order; a run is insensitive to either) *)
 Definition commit_records (t : txn) : list wrec :=
   let m := t.(tx_mem) in
   map (fun c => RCreateNode (fst (fst c)) (snd (fst c)) (snd c)) t.(tx_created)
   ++ map (fun p => RAddLabel (fst p) (snd p)) t.(tx_ladd)
   ++ map (fun p => RRemLabel (fst p) (snd p)) t.(tx_lrem)
-  ++ map RTombEdge m.(me_te)
-  ++ map RCreateEdge m.(me_edges)
-  ++ map RTombNode m.(me_tn)
-  ++ map (fun kv => RSetNP (fst (fst kv)) (snd (fst kv)) (snd kv)) m.(me_np)
-  ++ map (fun p => RRemNP (fst p) (snd p)) m.(me_nrm)
-  ++ map (fun kv => RSetEP (fst (fst kv)) (snd (fst kv)) (snd kv)) m.(me_ep)
-  ++ map (fun p => RRemEP (fst p) (snd p)) m.(me_erm).
+  ++ map RTombEdge (rev m.(me_te))
+  ++ map RCreateEdge (rev m.(me_edges))
+  ++ map RTombNode (rev m.(me_tn))
+  ++ map (fun kv => RSetNP (fst (fst kv)) (snd (fst kv)) (snd kv)) (rev m.(me_np))
+  ++ map (fun p => RRemNP (fst p) (snd p)) (rev m.(me_nrm))
+  ++ map (fun kv => RSetEP (fst (fst kv)) (snd (fst kv)) (snd kv)) (rev m.(me_ep))
+  ++ map (fun p => RRemEP (fst p) (snd p)) (rev m.(me_erm)).
 
 (* idmap.rs apply_add_label / apply_remove_label on the in-memory lists (unknown node: ignored here,
    an error in the code — the generator never produces it) *)
